@@ -4,9 +4,10 @@ EXTENDS Integers, Sequences, LocalGridBase
 P1 == << <<0, 0>>, <<1, 0>>, <<0, 2>>, <<2, 2>> >>
 P2 == << <<2, 2>>, <<0, 2>>, <<1, 0>>, <<0, 0>> >>
 P3 == << <<0, 0>>, <<0, 0>>, <<1, 1>>, <<3, 3>> >>      \* duplicate point
+P4 == << <<6, 5>>, <<5, 7>>, <<7, 7>>, <<5, 5>> >>      \* moved far outside the bounding box of P1..P3
 W1 == <<1, 2, 3, 4>>
 W2 == <<5, 5, 6, 7>>
-MC_PSeq == <<P1, P2, P3>>
+MC_PSeq == <<P1, P2, P3, P4>>
 MC_WSeq == <<W1, W2>>
 MC_CSeq == << <<0, 0>>, <<1, 1>>, <<7, 7>> >>
 MC_RSeq == <<0, 1, 3, 9, 33, Inf>>
